@@ -542,6 +542,8 @@ def proj_sub(obj, idx):
             is_const(x) for x in idx[1:]) and not any(x[0] == "star" for x in obj[1]):
         s = slice(idx[1][1], idx[2][1], idx[3][1])
         return (obj[0], tuple(obj[1][s]))
+    if idx[0] == "slice" and idx[1] in (NONE, C(0)) and idx[2] == NONE and idx[3] in (NONE, C(1)):
+        return obj  # x[:] / x[0:] / x[::1] has the elements of x
     if idx == ("slice", NONE, NONE, C(-1)):
         # x[::-1] is the reversed sequence
         return ("call", ("ext", "builtins.reversed"), (obj,), ())
@@ -741,6 +743,14 @@ def norm_call(f, args, kwargs, prog: Program | None = None):
             v = kwargs["x"]
             return norm_call(("ext", "jax.numpy.where"), (), {
                 "condition": norm_call(("ext", "jax.numpy.isnan"), (), {"a": v}, prog), "x": kwargs["nan"], "y": v}, prog)
+        if q.startswith("jax.") and "shape" in kwargs:
+            sh = kwargs["shape"]
+            if sh[0] == "call" and sh[1] in (("ext", "builtins.list"), ("ext", "builtins.tuple")) and len(sh[2]) == 1 and not sh[3]:
+                # jax canonicalises shapes: a list and a tuple of the same extents are one shape
+                kwargs = dict(kwargs, shape=sh[2][0])
+        if q == "builtins.zip" and "strict" in kwargs:
+            # strict=True only adds an error for sequences of unequal length; the pairs produced are the same
+            kwargs = {k: v for k, v in kwargs.items() if k != "strict"}
         if q == "jax.numpy.negative" and "a" in kwargs and len(kwargs) == 1:
             return mk_neg(kwargs["a"])
         if q == "jax.numpy.square" and "a" in kwargs and len(kwargs) == 1:
@@ -966,6 +976,52 @@ def _late_bound_rewrite(nodes, targets, escaping_only=False):
     return new, captured
 
 
+def _match_to_if(st: ast.Match, tmp: str):
+    """`match` with value / singleton / class / capture / wildcard / or patterns as the equivalent if-chain over a
+    temporary holding the subject (sequence and mapping patterns are not modelled)."""
+    subj = ast.Name(id=tmp, ctx=ast.Load())
+
+    def test(pat):
+        """Returns (test expr, [binding statements])."""
+        if isinstance(pat, ast.MatchValue):
+            return ast.Compare(left=subj, ops=[ast.Eq()], comparators=[pat.value]), []
+        if isinstance(pat, ast.MatchSingleton):
+            return ast.Compare(left=subj, ops=[ast.Is()], comparators=[ast.Constant(value=pat.value)]), []
+        if isinstance(pat, ast.MatchClass) and not pat.patterns and not pat.kwd_patterns:
+            return ast.Call(func=ast.Name(id="isinstance", ctx=ast.Load()), args=[subj, pat.cls], keywords=[]), []
+        if isinstance(pat, ast.MatchAs):
+            binds = [ast.Assign(targets=[ast.Name(id=pat.name, ctx=ast.Store())], value=subj, lineno=st.lineno)] \
+                if pat.name else []
+            if pat.pattern is None:
+                return ast.Constant(value=True), binds
+            t, b = test(pat.pattern)
+            return t, b + binds
+        if isinstance(pat, ast.MatchOr):
+            parts = [test(p_) for p_ in pat.patterns]
+            if any(b for _, b in parts):
+                raise AnalysisError("match: capture inside an or-pattern is not modelled")
+            return ast.BoolOp(op=ast.Or(), values=[t for t, _ in parts]), []
+        raise AnalysisError(f"match pattern {type(pat).__name__} is not modelled")
+
+    node = None
+    for case in reversed(st.cases):
+        t, binds = test(case.pattern)
+        if case.guard is not None:
+            if binds:
+                raise AnalysisError("match: guard on a capturing pattern is not modelled")
+            t = ast.BoolOp(op=ast.And(), values=[t, case.guard])
+        body = binds + list(case.body)
+        if isinstance(t, ast.Constant) and t.value is True:
+            node = body
+        else:
+            node = [ast.If(test=t, body=body, orelse=node or [], lineno=case.pattern.lineno if hasattr(case.pattern, "lineno") else st.lineno,
+                           col_offset=0)]
+    out = [ast.Assign(targets=[ast.Name(id=tmp, ctx=ast.Store())], value=st.subject, lineno=st.lineno)] + (node or [])
+    for n in out:
+        ast.fix_missing_locations(n)
+    return out
+
+
 class Interp:
     def __init__(self, prog: Program, *, inline_repo=True, fold_classvars=True,
                  no_inline: set[str] | None = None):
@@ -1048,6 +1104,12 @@ class Interp:
             else:
                 flat.append(x)
         args = flat
+        stars = [i for i, x in enumerate(args) if isinstance(x, tuple) and x and x[0] == "star"]
+        star_rest = None
+        if stars == [len(args) - 1] and a.vararg and len(args) - 1 == len(pos):
+            # f(p1, ..., pn, *rest) against def f(p1, ..., pn, *varargs): varargs is tuple(rest)
+            star_rest = args[-1][1]
+            args = args[:-1]
         if any(isinstance(x, tuple) and x and x[0] == "star" for x in args):
             # cannot bind precisely
             for p in pos + a.kwonlyargs:
@@ -1071,7 +1133,7 @@ class Interp:
                     env.set(p.arg, ("unknown", f"missing argument {p.arg}"))
         extra = args[len(pos):]
         if a.vararg:
-            env.set(a.vararg.arg, ("tuple", tuple(extra)))
+            env.set(a.vararg.arg, star_rest if star_rest is not None else ("tuple", tuple(extra)))
         for p, d in zip(a.kwonlyargs, a.kw_defaults):
             if p.arg in kwargs:
                 env.set(p.arg, kwargs.pop(p.arg))
@@ -1107,6 +1169,11 @@ class Interp:
         """Apply a method definition to [self, *args]; a decorator that is not a compilation / descriptor marker
         is applied to the function value first (it may change arguments or results)."""
         decs = self._transforming_decorators(fn)
+        dnames = {ast.unparse(d) for d in getattr(fn, "decorator_list", [])}
+        if "staticmethod" in dnames and args:
+            args = list(args)[1:]  # called through an instance: no self is passed
+        elif "classmethod" in dnames and args and ctx[1] is not None:
+            args = [("ext", ctx[1].qualname)] + list(args)[1:]
         if not decs:
             return self.apply_def(fn, Env(), ctx, args, kwargs)
         plain = ast.FunctionDef(name=fn.name, args=fn.args, body=fn.body, decorator_list=[], returns=fn.returns,
@@ -1141,6 +1208,15 @@ class Interp:
             return ("raises", out[1])
         return ("unknown", "outcome")
 
+    def _closure_env(self, f):
+        for be in reversed(getattr(self, "active_scopes", ())):
+            e = be
+            while e is not None and e is not f.env:
+                e = e.parent
+            if e is f.env and be is not f.env:
+                return be
+        return f.env
+
     def reify(self, v):
         """Closure / Partial -> lam term."""
         if isinstance(v, Closure):
@@ -1148,7 +1224,7 @@ class Interp:
             a = fn.args
             names = [p.arg for p in a.posonlyargs + a.args + a.kwonlyargs]
             d = self.depth
-            env = Env(v.env)
+            env = Env(self._closure_env(v))
             if isinstance(fn, ast.Lambda) and a.defaults and not a.kwonlyargs and not a.vararg and not a.kwarg:
                 # `lambda v, b=b: ...` - the early-binding idiom: as a term, the defaulted trailing parameters are
                 # bound to their defaults (evaluated where the lambda was created) and the arity is what remains
@@ -1182,12 +1258,52 @@ class Interp:
         if isinstance(v, BoundMethod):
             return ("attr", v.self_term, v.name)
         if isinstance(v, Partial):
+            lam = self._partial_as_lambda(v)
+            if lam is not None:
+                return lam
             f = self.reify(v.fn)
             return ("call", ("ext", "functools.partial"), (f,) + tuple(self.reify(x) for x in v.args),
                     tuple(sorted((k, self.reify(x)) for k, x in v.kwargs.items())))
         if isinstance(v, tuple):
             return v
         return ("unknown", f"reify {type(v).__name__}")
+
+    def _partial_as_lambda(self, v):
+        """partial(f, *bound, **kw) of a package function / closure with a plain signature, as a value, is the lambda
+        over f's remaining parameters (those without a default; defaulted ones take their default)."""
+        fn = v.fn
+        if isinstance(fn, tuple) and fn[0] == "ext" and fn[1].startswith("flowjax") and self.inline_repo:
+            r = self.prog.lookup(fn[1])
+            if not r or r[0] != "func" or fn[1] in self.no_inline or r[2].decorator_list:
+                return None
+            fn = Closure(r[2], Env(), (r[1], None, None), r[2].name)
+        if not isinstance(fn, Closure) or isinstance(fn.node, ast.Lambda):
+            return None
+        a = fn.node.args
+        if a.vararg or a.kwarg or a.posonlyargs:
+            return None
+        pos = [p_.arg for p_ in a.args]
+        nd = len(a.defaults)
+        has_default = set(pos[len(pos) - nd:]) | {p_.arg for p_, dflt in zip(a.kwonlyargs, a.kw_defaults) if dflt is not None}
+        if len(v.args) > len(pos) or any(k not in pos + [p_.arg for p_ in a.kwonlyargs] for k in v.kwargs):
+            return None
+        bound = dict(zip(pos, v.args))
+        bound.update(v.kwargs)
+        remaining = [n for n in pos if n not in bound and n not in has_default]
+        if any(p_.arg not in bound and p_.arg not in has_default for p_ in a.kwonlyargs):
+            return None
+        d = self.depth
+        self.depth += 1
+        try:
+            kw = dict(bound)
+            for i, n in enumerate(remaining):
+                kw[n] = ("bv", d, i)
+            body = self.as_term(self.apply_def(fn.node, fn.env, fn.ctx, [], kw))
+        except AnalysisError:
+            return None
+        finally:
+            self.depth -= 1
+        return ("lam", len(remaining), body, d)
 
     # ------------------------------------------------------------------ statements
     def exec_block(self, stmts, env: Env, ctx):
@@ -1199,6 +1315,8 @@ class Interp:
                 return ("raise", self.ev(st.exc, env, ctx) if st.exc is not None else NONE)
             if isinstance(st, ast.Continue):
                 return ("continue", env)
+            if isinstance(st, ast.Match):
+                return self.exec_block(_match_to_if(st, f"__match_{st.lineno}") + list(stmts[i + 1:]), env, ctx)
             if isinstance(st, ast.With):
                 # the managed block is executed in place (a return / raise inside it leaves the function); the
                 # context expressions are evaluated for their guards, what __enter__ returns is opaque
@@ -1553,6 +1671,9 @@ class Interp:
             body_env.set(n, ("bv", d, 1 + i))
         self.depth += 1
         n_guards = len(self.guards)
+        if not hasattr(self, "active_scopes"):
+            self.active_scopes = []
+        self.active_scopes.append(body_env)
         try:
             try:
                 out = self.exec_block(st.body, body_env, ctx)
@@ -1560,6 +1681,7 @@ class Interp:
                 out = ("break",)
         finally:
             self.depth -= 1
+            self.active_scopes.pop()
         # a guard met inside the loop body raises iff it holds for SOME element: any(test(e) for e in it)
         for gi in range(n_guards, len(self.guards)):
             g = self.guards[gi]
@@ -1873,6 +1995,11 @@ class Interp:
         v = nt_field(obj, name)
         if v is not None:
             return v
+        if obj[0] == "record":
+            for k, fv in obj[1]:
+                if k == name:
+                    return fv
+            return ("unknown", f"attribute {name} of a callable instance is not set by its constructor")
         if obj[0] == "ext":
             return ("ext", self.prog.canonical(f"{obj[1]}.{name}"))
         if obj[0] == "const" and isinstance(obj[1], str):
@@ -1890,7 +2017,11 @@ class Interp:
             r = self.prog.find_method(ctx[1], name)
             if r and name not in r[0].properties:
                 return BoundMethod(r[0], r[1], ctx[1], ctx[2], name)
-            if r and self.inline_properties and name in r[0].properties:
+            # a private property the unchanged tree did not have (anchors.json) is a refactoring's helper: evaluated
+            # through its body, like a helper method; recorded / public properties stay symbolic unless asked for
+            if r and name in r[0].properties and (self.inline_properties or (
+                    name.startswith("_") and self.prog.recorded_signatures and
+                    f"{r[0].qualname}.{name}" not in self.prog.recorded_signatures)):
                 qn = f"{ctx[1].qualname}.{name}"
                 if self.stack.count(qn) == 0 and self.inline_depth < MAX_INLINE:
                     self.stack.append(qn)
@@ -1980,8 +2111,18 @@ class Interp:
         return self.call(f, args, kwargs, ctx, node)
 
     def call(self, f, args, kwargs, ctx, node=None):
+        if isinstance(f, Partial):
+            kw = dict(f.kwargs)
+            kw.update(kwargs)
+            return self.call(f.fn, list(f.args) + list(args), kw, ctx, node)
         opaque_args = any(isinstance(a, tuple) and a and a[0] == "star" for a in args) or any(
             k.startswith("**") for k in kwargs)
+        if opaque_args and isinstance(f, Closure) and not any(k.startswith("**") for k in kwargs):
+            a_ = f.node.args
+            npos_ = len(a_.posonlyargs + a_.args)
+            st_ = [i for i, x in enumerate(args) if isinstance(x, tuple) and x and x[0] == "star"]
+            if a_.vararg and st_ == [len(args) - 1] and len(args) - 1 == npos_:
+                return self.apply_def(f.node, self._closure_env(f), f.ctx, args, kwargs)
         if opaque_args and not isinstance(f, tuple):
             f = self.reify(f)
         if opaque_args and isinstance(f, tuple) and f[0] == "attr" and f[2] == "reshape" and not kwargs and \
@@ -1994,7 +2135,9 @@ class Interp:
             tkw = {k: self.as_term(v) for k, v in kwargs.items()}
             return norm_call(f, targs, tkw, self.prog)
         if isinstance(f, Closure):
-            return self.apply_def(f.node, f.env, f.ctx, args, kwargs)
+            # Python functions have ONE scope: a closure defined before a loop reads, when called inside the loop body,
+            # the loop's current bindings (the body is evaluated in a child environment of the defining one)
+            return self.apply_def(f.node, self._closure_env(f), f.ctx, args, kwargs)
         if isinstance(f, BoundMethod):
             qn = f"{f.cls.qualname}.{f.name}"
             if self.inline_repo and qn not in self.no_inline and self.stack.count(qn) == 0 \
@@ -2033,6 +2176,10 @@ class Interp:
                 args = [a0] + list(args[1:])
             if q == "functools.partial" and args:
                 return Partial(args[0], args[1:], kwargs)
+            if q in ("equinox.filter_jit", "jax.jit") and len(args) == 1 and not isinstance(args[0], tuple):
+                # compiling a callable does not change what it computes (what it CAPTURES at trace time is the
+                # business of C14's closure rule)
+                return args[0]
             if q == "jax.lax.scan":
                 r = self.model_scan(args, kwargs)
                 if r is not None:
@@ -2069,6 +2216,15 @@ class Interp:
             lit = self._literal_builtin(q, args, kwargs)
             if lit is not None:
                 return lit
+            if q == "builtins.getattr" and len(args) == 2 and not kwargs:
+                a1 = self.as_term(args[1])
+                if is_const(a1) and isinstance(a1[1], str):
+                    # getattr(x, "name") is x.name
+                    o = args[0] if isinstance(args[0], tuple) else self.as_term(args[0])
+                    return self.attr(o, a1[1], ctx)
+            inst = self._private_callable_instance(q, args, kwargs)
+            if inst is not None:
+                return inst
             if q == "builtins.map" and len(args) == 2 and not kwargs and isinstance(args[0], (Closure, BoundMethod, Partial)):
                 # map(f, xs) is the comprehension (f(x) for x in xs)
                 fn_t = self.reify(args[0])
@@ -2089,7 +2245,20 @@ class Interp:
                     return TRUE
         elif f[0] == "attr":
             obj, name = f[1], f[2]
-            # self.method(...) -> inline
+            # self.method(...) -> inline; also unwrap(self).<helper the unchanged tree did not have>(...), the form a
+            # public method uses after `self = unwrap(self)`
+            on_unwrapped_self = ctx[1] is not None and obj == ("call", ("ext", "flowjax.wrappers.unwrap"), (), (("tree", ctx[2]),)) \
+                and name.startswith("_") and self.prog.recorded_signatures
+            if on_unwrapped_self and self.inline_repo:
+                r = self.prog.find_method(ctx[1], name)
+                qn = f"{ctx[1].qualname}.{name}"
+                if r and f"{r[0].qualname}.{name}" not in self.prog.recorded_signatures and name not in ctx[1].properties \
+                        and qn not in self.no_inline and self.stack.count(qn) == 0 and name not in r[0].abstract:
+                    self.stack.append(qn)
+                    try:
+                        return self.apply_method(r[1], (r[0].module, ctx[1], obj), [obj] + list(args), kwargs)
+                    finally:
+                        self.stack.pop()
             if ctx[1] is not None and obj == ctx[2] and self.inline_repo:
                 r = self.prog.find_method(ctx[1], name)
                 qn = f"{ctx[1].qualname}.{name}"
@@ -2179,6 +2348,42 @@ class Interp:
     @staticmethod
     def _is_lit(t):
         return isinstance(t, tuple) and t and t[0] in ("tuple", "list") and not any(x[0] == "star" for x in t[1])
+
+    def _private_callable_instance(self, q, args, kwargs):
+        """A private plain class of the package with __call__ (a closure written as a class: _ScanStep(method, cond),
+        _RavelledConstructor(init, unravel, static)) is, as a value, the function its __call__ computes with the
+        constructor arguments bound: reified like a closure."""
+        if not q.startswith("flowjax") or not self.inline_repo:
+            return None
+        r = self.prog.lookup(q)
+        if not r or r[0] != "class" or not r[1].name.startswith("_"):
+            return None
+        cls = r[1]
+        rc = self.prog.find_method(cls, "__call__")
+        qn = f"{q}.__call__"
+        if rc is None or qn in self.no_inline or self.stack.count(qn) or any(
+                b not in self.prog.classes for k in self.prog.mro(cls) for b in k.bases):
+            return None  # only classes whose whole ancestry is in the package (not eqx.Module, NamedTuple ...)
+        if any(isinstance(a, tuple) and a and a[0] == "star" for a in args) or any(k.startswith("**") for k in kwargs):
+            return None
+        fields = self.eval_init(cls, list(args), dict(kwargs))
+        fn = rc[1]
+        a = fn.args
+        pos = a.posonlyargs + a.args
+        if not pos:
+            return None
+        # the closure it stands for: __call__ without its first parameter, `self` bound to a record of the fields
+        import copy
+        a2 = copy.copy(a)
+        if a.posonlyargs:
+            a2.posonlyargs = a.posonlyargs[1:]
+        else:
+            a2.args = a.args[1:]
+        fn2 = ast.FunctionDef(name=cls.name, args=a2, body=fn.body, decorator_list=[], returns=None, type_comment=None,
+                              lineno=fn.lineno, col_offset=fn.col_offset)
+        env = Env()
+        env.set(pos[0].arg, ("record", tuple(sorted((k, self.as_term(v)) for k, v in fields.items()))))
+        return Closure(fn2, env, (rc[0].module, None, None), cls.name)
 
     def _literal_builtin(self, q, args, kwargs):
         """enumerate / zip / range / reversed / len on literal sequences (constant propagation)."""
@@ -2321,7 +2526,16 @@ def assigned_names(stmts) -> list[str]:
                 visit(s.body)
                 visit(s.orelse)
             elif isinstance(s, ast.With):
+                for item in s.items:
+                    if item.optional_vars is not None:
+                        tgt(item.optional_vars)
                 visit(s.body)
+            elif isinstance(s, ast.Match):
+                for case in s.cases:
+                    for n in ast.walk(case.pattern):
+                        if isinstance(n, (ast.MatchAs, ast.MatchStar)) and n.name:
+                            add(n.name)
+                    visit(case.body)
             elif isinstance(s, ast.Try):
                 visit(s.body)
                 for h in s.handlers:
